@@ -205,7 +205,7 @@ class TrainerWorld(World):
                 cfg["cell_b"]["delay_k"] = [float(rc.randint(0, kmax)) for _ in range(nsyn_b)]
         if trainer in THREE_FACTOR:
             cfg["reward"] = rc.choice(["scalar", "scalar", "persample"])
-            if cfg["reward"] == "persample":
+            if cfg["reward"] == "persample" and rc.random() < 0.5:
                 cfg["reduce"] = "sum"
         if trainer == "LinearHomeostasis":
             cfg["param"] = rc.choice(["weight", "bias", "delay"]) if dmode != "none" else rc.choice(["weight", "bias"])
@@ -681,13 +681,16 @@ class _Run:
             s = np.array(sig, dtype=np.float64)
             mag = np.abs(s * scale)[:, None, None]
             flip = (s < 0)[:, None, None]
-            pos = np.zeros(Pa.shape[1:])
-            neg = np.zeros(Pa.shape[1:])
+            # documented: the routing by sign is extended to the sign of each sample's signal (a non-negative signal keeps the direction), so
+            # the potentiating and the depressing component each hold one row per (sample, side) routed to it; the configured batch reduction
+            # is applied to each component's rows (for a sum this is the plain per-sample sum)
+            rows = {True: [], False: []}
             for P, lr in ((Pa, a), (Pb, b)):
                 contrib = P * mag
-                to_pos = (lr >= 0) != flip            # a negative reward flips the direction
-                pos = pos + np.where(to_pos, contrib, 0.0).sum(0)
-                neg = neg + np.where(~to_pos, contrib, 0.0).sum(0)
+                for bi in range(contrib.shape[0]):
+                    rows[bool((lr >= 0) != bool(s[bi] < 0))].append(contrib[bi])
+            pos = self.reduce(np.stack(rows[True], 0)) if rows[True] else np.zeros(Pa.shape[1:])
+            neg = self.reduce(np.stack(rows[False], 0)) if rows[False] else np.zeros(Pa.shape[1:])
             return g.to_w(pos), g.to_w(neg)
         mag = abs(sig * scale)
         # a negative reward flips the direction: route by the sign of (rate * signal)
